@@ -387,23 +387,30 @@ private:
       //       and the seq-cst fence (3)
       XENIUM_THREAD_FENCE(std::memory_order_acquire);
 
+      // Adopt the orphans that are to be reclaimed _before_ the new epoch becomes visible. As soon as other
+      // threads can observe the new epoch they may add freshly retired nodes to the very same orphan list,
+      // and these must not be reclaimed yet.
+      auto& orphan_list = orphans[new_epoch % number_epochs];
+      auto* nodes = orphan_list.adopt();
+
       // (7) - this release-CAS synchronizes-with the acquire-load (5)
       bool success = global_epoch.compare_exchange_strong(
         curr_epoch, new_epoch, std::memory_order_release, std::memory_order_relaxed);
       if (XENIUM_LIKELY(success)) {
-        reclaim_orphans(new_epoch);
+        detail::delete_objects(nodes);
+      } else if (nodes != nullptr) {
+        // some other thread has updated the epoch -> hand the nodes back
+        auto* last = nodes;
+        while (last->next != nullptr) {
+          last = last->next;
+        }
+        orphan_list.add({nodes, last});
       }
     }
     return new_epoch;
   }
 
   void add_retired_node(detail::deletable_object* p) { retire_lists[local_epoch_idx].push(p); }
-
-  void reclaim_orphans(epoch_t epoch) {
-    auto idx = epoch % number_epochs;
-    auto* nodes = orphans[idx].adopt();
-    detail::delete_objects(nodes);
-  }
 
   unsigned critical_entries_since_update = 0;
   unsigned nested_critical_entries = 0;
